@@ -4,6 +4,7 @@
 set -uo pipefail
 PATCH="$(readlink -f "$1")"; shift
 W=/var/tmp/myrepo
+[ -d $W ] || git -C /repo worktree add -q --detach $W HEAD     # created on first use; remove with `git -C /repo worktree remove --force /var/tmp/myrepo; rm -rf /var/tmp/mytarget`
 cd $W && git reset -q && git checkout -q -- . && git clean -fdq && git checkout -q --detach "$(git -C /repo rev-parse HEAD)"
 if ! git apply "$PATCH" 2>/dev/null; then git apply -3 "$PATCH" 2>/dev/null || { echo "try2: patch does not apply"; git reset -q; git checkout -q -- .; exit 3; }; fi
 for c in "$@"; do
